@@ -768,6 +768,32 @@ fn scenario(
         }
         drop(g);
     }
+    // the process-wide default reached the way production code reaches it: from a thread that
+    // has no scope (the losing set_global_default attempts of the race must not have harmed it)
+    if let Some(ga) = &global {
+        for c in &touched {
+            qid += 1;
+            emit(c, qid);
+            out.evals += 1;
+            out.count("quiescence_emissions_to_the_global_default_without_a_scope", 1);
+            let want = ga.spec().accepts(c.level, c.target);
+            let n = delivered(ga, qid);
+            let elsewhere: usize = allv.iter().filter(|x| x.cid != ga.cid).map(|x| delivered(x, qid)).sum();
+            if n != want as usize || elsewhere != 0 {
+                out.violation(
+                    if want {
+                        "after the activity quiesced the global default collector does not receive an emission (from a thread without a scope) that its filter accepts"
+                    } else {
+                        "after the activity quiesced the global default collector receives an emission its filter rejects"
+                    },
+                    witness(json!({"collector": format!("c{} = {} (set_global_default succeeded with it)", ga.cid, ga.spec().code()),
+                                   "callsite": format!("#{} {:?} {} {}", c.idx, c.kind, vcs::LEVEL_NAMES[c.level], vcs::TARGETS[c.target]),
+                                   "expected": want, "delivered": n, "elsewhere": elsewhere})),
+                );
+                return Err(());
+            }
+        }
+    }
     // (snapshot of what each live collector has been offered so far: taken before the probe
     // collector below is created, because creating a Dispatch re-offers every callsite)
     let snapshots: Vec<Vec<usize>> = live.iter().map(|(a, _)| a.registered.lock().unwrap().clone()).collect();
